@@ -399,3 +399,175 @@ Proof.
   assert (Ha : In a ps) by (apply Htp; left; auto). assert (Hb : In b ps) by (apply Htp; right; left; auto).
   rewrite !L, (proj2 (memP_iff a ps) Ha), (proj2 (memP_iff b ps) Hb). reflexivity.
 Qed.
+
+(* ---------- keydoor ---------- *)
+Lemma Leaf_rints g lo hi x : Leaf (rints g lo hi) x <-> (hi < lo /\ x = Err ValueError) \/ (exists i, lo <= i <= hi /\ x = Ok i).
+Proof.
+  unfold rints. destruct (hi <? lo) eqn:E.
+  - apply Z.ltb_lt in E. rewrite Leaf_Raise. split; [auto | intros [[_ H]|(i & H & _)]; [auto | lia]].
+  - apply Z.ltb_ge in E. split.
+    + intros H. inversion H as [| |g' r' k' ans x' Hv Hl]; subst. apply Leaf_Ret in Hl. subst. right.
+      unfold valid_ans in Hv. apply andb_true_iff in Hv. destruct Hv as [Hlen Hr].
+      destruct ans as [|i [|? ?]]; cbn [length] in Hlen; try (apply Z.eqb_eq in Hlen; lia).
+      apply inrange_one in Hr. exists i. split; [lia | reflexivity].
+    + intros [[H _]|(i & Hi & ->)]; [lia|]. apply LDraw with (ans := [i]); [|constructor].
+      unfold valid_ans. rewrite (proj2 (inrange_one lo (hi + 1) i)) by lia. reflexivity.
+Qed.
+Lemma rchoice_of_leaf {A} g (l : list A) d x : l <> [] -> Leaf (rchoice_of g l d) x -> exists a, x = Ok a /\ In a l.
+Proof.
+  intros Hne H. unfold rchoice_of in H. apply Leaf_bind in H. destruct H as [(i & Hi & H)|(e & He & ->)].
+  - apply Leaf_Ret in H. subst x. apply Leaf_rchoice in Hi. destruct Hi as [[_ E]|(j & Hj & E)]; [discriminate|]. injection E as <-.
+    eexists; split; [reflexivity|]. unfold nthZ. apply nth_In. lia.
+  - exfalso. apply Leaf_rchoice in He. destruct He as [[Hn _]|(j & _ & E)]; [|discriminate]. destruct l; [contradiction | cbn [length] in Hn; lia].
+Qed.
+
+Theorem keydoor_wf h w own r : 4 <= h -> 5 <= w -> Leaf (reset_keydoor h w own) r ->
+  exists s, r = Ok s /\ wf_check (PKeydoor h w) s = true.
+Proof.
+  intros Hh Hw HL. unfold reset_keydoor in HL.
+  replace ((h <? 3) || (w <? 5) || ((h =? 3) && (w =? 5))) with false in HL
+    by (symmetry; rewrite !orb_false_iff, andb_false_iff, !Z.ltb_ge, !Z.eqb_neq; lia).
+  apply Leaf_bind in HL. destruct HL as [(s & Hs & HL)|(x & Hx & ->)].
+  2:{ destruct (empty_outcome h w false false false _ Hh ltac:(lia) Hx) as (g & pe & pa & oa & E & _). discriminate. }
+  destruct (empty_outcome h w false false false _ Hh ltac:(lia) Hs) as (g & pe & pa0 & oa0 & E & R & Hpe & _ & _ & _ & Hpefix). injection E as ->.
+  rewrite (Hpefix eq_refl) in *. clear Hpefix. cbn [sgrid] in HL.
+  (* the wall column *)
+  apply Leaf_bind in HL. destruct HL as [(xw & Hxw & HL)|(x & Hx & ->)].
+  2:{ exfalso. apply Leaf_rints in Hx. destruct Hx as [[H _]|(i & _ & E)]; [lia | discriminate]. }
+  apply Leaf_rints in Hxw. destruct Hxw as [[H _]|(i & Hi & E)]; [lia|]. injection E as <-.
+  set (line := cartesian (zrange 1 (h - 1)) [xw]) in *.
+  assert (Hline : forall q, In q line <-> 1 <= fst q <= h - 2 /\ snd q = xw).
+  { intros q. unfold line, cartesian. rewrite cartesian_In, zrange_In. cbn [In]. intuition lia. }
+  assert (Nline : NoDup line).
+  { unfold line, cartesian. apply NoDup_pairs; [apply zrange_n_NoDup | repeat constructor; intros []]. }
+  destruct ty_distinct_holds as (D1 & D2 & D3 & D4 & D5).
+  destruct (draw_spec line g Wall (rm_wf _ _ _ _ R)) as (g1 & E1 & W1 & Eh1 & Ew1 & L1).
+  { intros q Hq. apply Hline in Hq. apply (room_in_grid h w g _ q R). lia. }
+  rewrite E1 in HL. cbn [lift bind] in HL.
+  assert (IG1 : forall q, in_grid g1 q = in_grid g q) by (intros q; unfold in_grid, garea; now rewrite Eh1, Ew1).
+  (* the door *)
+  assert (Lne : line <> []).
+  { assert (In (1, xw) line) by (apply Hline; cbn [fst snd]; lia). intros E0. rewrite E0 in H. destruct H. }
+  apply Leaf_bind in HL. destruct HL as [(pd & Hpd & HL)|(x & Hx & ->)].
+  2:{ destruct (rchoice_of_leaf _ line (0, 0) _ Lne Hx) as (a & E & _). discriminate. }
+  destruct (rchoice_of_leaf _ line (0, 0) _ Lne Hpd) as (a & E & Hpd_in). injection E as <-. apply Hline in Hpd_in.
+  assert (Ipd : in_grid g1 pd = true) by (rewrite IG1; apply (room_in_grid h w g _ pd R); lia).
+  rewrite (grid_set_in g1 pd _ W1 Ipd) in HL. cbn [lift bind] in HL.
+  set (g2 := gset g1 pd (Door st_LOCKED COL_YELLOW)) in *.
+  assert (W2 : wf_grid g2) by (apply wf_gset; auto).
+  (* the key *)
+  apply Leaf_bind in HL. destruct HL as [(yk & Hyk & HL)|(x & Hx & ->)].
+  2:{ exfalso. apply Leaf_rints in Hx. destruct Hx as [[H _]|(j & _ & E)]; [lia | discriminate]. }
+  apply Leaf_rints in Hyk. destruct Hyk as [[H _]|(j & Hj & E)]; [lia|]. injection E as ->.
+  apply Leaf_bind in HL. destruct HL as [(xk & Hxk & HL)|(x & Hx & ->)].
+  2:{ exfalso. apply Leaf_rints in Hx. destruct Hx as [[H _]|(j' & _ & E)]; [lia | discriminate]. }
+  apply Leaf_rints in Hxk. destruct Hxk as [[H _]|(j' & Hj' & E)]; [lia|]. injection E as ->.
+  assert (Ipk : in_grid g2 (j, j') = true).
+  { unfold g2. rewrite in_grid_gset, IG1. apply (room_in_grid h w g _ _ R). cbn [fst snd]. lia. }
+  rewrite (grid_set_in g2 (j, j') _ W2 Ipk) in HL. cbn [lift bind] in HL.
+  set (g3 := gset g2 (j, j') (Key COL_YELLOW)) in *.
+  (* the agent *)
+  apply Leaf_bind in HL. destruct HL as [(ya & Hya & HL)|(x & Hx & ->)].
+  2:{ exfalso. apply Leaf_rints in Hx. destruct Hx as [[H _]|(k & _ & E)]; [lia | discriminate]. }
+  apply Leaf_rints in Hya. destruct Hya as [[H _]|(k & Hk & E)]; [lia|]. injection E as ->.
+  apply Leaf_bind in HL. destruct HL as [(xa & Hxa & HL)|(x & Hx & ->)].
+  2:{ exfalso. apply Leaf_rints in Hx. destruct Hx as [[H _]|(k' & _ & E)]; [lia | discriminate]. }
+  apply Leaf_rints in Hxa. destruct Hxa as [[H _]|(k' & Hk' & E)]; [lia|]. injection E as ->.
+  apply Leaf_bind in HL. destruct HL as [(oa & _ & HL)|(x & Hx & ->)].
+  2:{ destruct (rchoice_of_leaf _ all_oris FORWARD _ ltac:(vm_compute; discriminate) Hx) as (a & E & _). discriminate. }
+  apply Leaf_Ret in HL. subst r. eexists; split; [reflexivity|].
+  (* the final grid, cell by cell *)
+  assert (W3 : wf_grid g3) by (apply wf_gset; auto).
+  assert (Eh3 : gheight g3 = h) by (unfold g3, g2; rewrite !gheight_gset, Eh1; apply (rm_h _ _ _ _ R)).
+  assert (Ew3 : gwidth g3 = w) by (unfold g3, g2; rewrite !gwidth_gset, Ew1; apply (rm_w _ _ _ _ R)).
+  assert (IG3 : forall q, in_grid g3 q = in_grid g q) by (intros q; unfold g3, g2; rewrite !in_grid_gset; apply IG1).
+  assert (L3 : forall q, in_grid g q = true -> lookupH g3 q =
+            if pos_eqb (j, j') q then Key COL_YELLOW else if pos_eqb pd q then Door st_LOCKED COL_YELLOW
+            else if memP q line then Wall else lookupH g q).
+  { intros q Iq. unfold g3. rewrite (lookupH_gset g2 (j, j') q _ W2 Ipk). destruct (pos_eqb (j, j') q); auto.
+    unfold g2. rewrite (lookupH_gset g1 pd q _ W1 Ipd). destruct (pos_eqb pd q); auto. rewrite L1, Iq. reflexivity. }
+  set (pex := (h - 2, w - 2)) in *.
+  assert (Hkd : (j, j') <> pd) by (intros E; rewrite <- E in Hpd_in; cbn [fst snd] in Hpd_in; lia).
+  unfold wf_check.
+  assert (C : common_ok (mkS g3 (k, k') oa NoneObj) h w = true).
+  { unfold common_ok, shape_is, agent_ok. cbn [sgrid spos sheld]. rewrite !andb_true_iff.
+    assert (Ia : in_grid g (k, k') = true) by (apply (room_in_grid h w g _ _ R); cbn [fst snd]; lia).
+    assert (Hcell : lookupH g3 (k, k') = Key COL_YELLOW \/ lookupH g3 (k, k') = Floor).
+    { rewrite (L3 _ Ia). destruct (pos_eqb (j, j') (k, k')); [left; reflexivity|]. right.
+      destruct (pos_eqb pd (k, k')) eqn:E; [apply pos_eqb_iff in E; rewrite E in Hpd_in; cbn [fst snd] in Hpd_in; lia|].
+      destruct (memP (k, k') line) eqn:M; [apply memP_iff, Hline in M; cbn [fst snd] in M; lia|].
+      apply (room_floor h w g pex (k, k') R); [unfold inner; cbn [fst snd]; lia | intros E'; injection E' as E1' E2'; lia]. }
+    repeat split.
+    - now apply wf_gridb_spec.
+    - now apply Z.eqb_eq.
+    - now apply Z.eqb_eq.
+    - unfold border_walls. apply forallb_forall. intros q Hq. apply border_In in Hq. unfold garea in Hq. cbn [ymin ymax xmin xmax] in Hq. rewrite Eh3, Ew3 in Hq.
+      assert (Iq : in_grid g q = true) by (apply (room_in_grid h w g pex q R); lia).
+      rewrite (L3 q Iq).
+      destruct (pos_eqb (j, j') q) eqn:Ea; [apply pos_eqb_iff in Ea; subst q; cbn [fst snd] in Hq; lia|].
+      destruct (pos_eqb pd q) eqn:Eb; [apply pos_eqb_iff in Eb; subst q; lia|].
+      destruct (memP q line) eqn:M; [reflexivity|].
+      pose proof (room_border_walls h w g pex R Hpe) as B. unfold border_walls in B. rewrite forallb_forall in B. apply B.
+      apply border_In. unfold garea. cbn [ymin ymax xmin xmax]. rewrite (rm_h _ _ _ _ R), (rm_w _ _ _ _ R). exact Hq.
+    - rewrite IG3. exact Ia.
+    - destruct Hcell as [-> | ->]; vm_compute; reflexivity.
+    - destruct Hcell as [-> | ->]; vm_compute; reflexivity.
+    - destruct Hcell as [-> | ->]; vm_compute; reflexivity.
+    - destruct Hcell as [-> | ->]; vm_compute; reflexivity. }
+  rewrite C. cbn [andb].
+  (* the inventory: one door, one key, one exit, and their arrangement *)
+  assert (Room_ty : forall q, in_grid g q = true -> forall t, t <> ty_Exit -> t <> ty_Wall -> t <> ty_Floor -> is_ty t (lookupH g q) = false).
+  { intros q Iq t T1 T2 T3. rewrite (rm_cells _ _ _ _ R q Iq). destruct (pos_eqb pex q); [|destruct (is_border h w q)]; unfold is_ty, Exit, Wall, Floor, mk0; cbn [oty]; now apply Z.eqb_neq; congruence. }
+  assert (Doors : forall q, In q (cells_at g3 (is_ty ty_Door)) <-> q = pd).
+  { intros q. rewrite cells_at_In, IG3. split.
+    - intros [Iq Hq]. rewrite (L3 q Iq) in Hq. destruct (pos_eqb (j, j') q); [vm_compute in Hq; discriminate|].
+      destruct (pos_eqb pd q) eqn:Eb; [apply pos_eqb_iff in Eb; auto|]. destruct (memP q line); [vm_compute in Hq; discriminate|].
+      rewrite (Room_ty q Iq ty_Door) in Hq by (vm_compute; discriminate). discriminate.
+    - intros ->. assert (Iq : in_grid g pd = true) by (rewrite <- IG1; exact Ipd). split; auto. rewrite (L3 pd Iq).
+      destruct (pos_eqb (j, j') pd) eqn:Ea; [apply pos_eqb_iff in Ea; contradiction|]. rewrite (proj2 (pos_eqb_iff pd pd) eq_refl). vm_compute. reflexivity. }
+  assert (Keys : forall q, In q (cells_at g3 (is_ty ty_Key)) <-> q = (j, j')).
+  { intros q. rewrite cells_at_In, IG3. split.
+    - intros [Iq Hq]. rewrite (L3 q Iq) in Hq. destruct (pos_eqb (j, j') q) eqn:Ea; [apply pos_eqb_iff in Ea; auto|].
+      destruct (pos_eqb pd q); [vm_compute in Hq; discriminate|]. destruct (memP q line); [vm_compute in Hq; discriminate|].
+      rewrite (Room_ty q Iq ty_Key) in Hq by (vm_compute; discriminate). discriminate.
+    - intros ->. assert (Iq : in_grid g (j, j') = true) by (apply (room_in_grid h w g _ _ R); cbn [fst snd]; lia). split; auto.
+      rewrite (L3 _ Iq), (proj2 (pos_eqb_iff (j, j') (j, j')) eq_refl). vm_compute. reflexivity. }
+  assert (Exits : forall q, In q (cells_at g3 (is_ty ty_Exit)) <-> q = pex).
+  { intros q. rewrite cells_at_In, IG3. split.
+    - intros [Iq Hq]. rewrite (L3 q Iq) in Hq. destruct (pos_eqb (j, j') q); [vm_compute in Hq; discriminate|].
+      destruct (pos_eqb pd q); [vm_compute in Hq; discriminate|]. destruct (memP q line); [vm_compute in Hq; discriminate|].
+      apply (room_exit_unique h w g pex R Hpe q). apply cells_at_In. auto.
+    - intros ->. assert (Iq : in_grid g pex = true) by (apply (room_in_grid h w g _ _ R); unfold pex; cbn [fst snd]; lia). split; auto.
+      rewrite (L3 _ Iq).
+      destruct (pos_eqb (j, j') pex) eqn:Ea; [apply pos_eqb_iff in Ea; unfold pex in Ea; injection Ea as Ea1 Ea2; lia|].
+      destruct (pos_eqb pd pex) eqn:Eb; [apply pos_eqb_iff in Eb; rewrite Eb in Hpd_in; unfold pex in Hpd_in; cbn [fst snd] in Hpd_in; lia|].
+      destruct (memP pex line) eqn:M; [apply memP_iff, Hline in M; unfold pex in M; cbn [fst snd] in M; lia|].
+      rewrite (rm_cells _ _ _ _ R pex Iq), (proj2 (pos_eqb_iff pex pex) eq_refl). vm_compute. reflexivity. }
+  unfold keydoor_ok. cbn [sgrid spos].
+  assert (Single : forall f p, (forall q, In q (cells_at g3 f) <-> q = p) -> cells_at g3 f = [p]).
+  { intros f p H. pose proof (cells_at_single g3 f p H) as Len. destruct (cells_at g3 f) as [|a [|b t]]; try discriminate Len.
+    f_equal. apply H. left; auto. }
+  rewrite (Single _ _ Doors), (Single _ _ Keys), (Single _ _ Exits).
+  assert (Ipd' : in_grid g pd = true) by (rewrite <- IG1; exact Ipd).
+  assert (Ipk' : in_grid g (j, j') = true) by (apply (room_in_grid h w g _ _ R); cbn [fst snd]; lia).
+  rewrite (L3 pd Ipd'), (L3 _ Ipk').
+  destruct (pos_eqb (j, j') pd) eqn:Ea; [apply pos_eqb_iff in Ea; contradiction|].
+  rewrite (proj2 (pos_eqb_iff pd pd) eq_refl), (proj2 (pos_eqb_iff (j, j') (j, j')) eq_refl).
+  rewrite !andb_true_iff. repeat split.
+  - (* the door sits in a full wall column *)
+    apply forallb_forall. intros y Hy. apply zrange_In in Hy. rewrite Eh3 in Hy. apply orb_true_iff.
+    destruct (Z.eq_dec y (fst pd)) as [->|Ny]; [left; apply Z.eqb_refl | right].
+    assert (Iq : in_grid g (y, snd pd) = true) by (apply (room_in_grid h w g _ _ R); cbn [fst snd]; lia).
+    rewrite (L3 _ Iq).
+    destruct (pos_eqb (j, j') (y, snd pd)) eqn:E1'; [apply pos_eqb_iff in E1'; injection E1' as _ E2'; lia|].
+    destruct (pos_eqb pd (y, snd pd)) eqn:E2'; [apply pos_eqb_iff in E2'; rewrite E2' in Ny; cbn [fst] in Ny; contradiction|].
+    destruct (memP (y, snd pd) line) eqn:M; [vm_compute; reflexivity|].
+    apply memP_false in M. rewrite Hline in M. cbn [fst snd] in M.
+    (* not on the line: the boundary rows *)
+    rewrite (rm_cells _ _ _ _ R _ Iq).
+    destruct (pos_eqb pex (y, snd pd)) eqn:E3'; [apply pos_eqb_iff in E3'; unfold pex in E3'; injection E3' as E3a E3b; lia|].
+    replace (is_border h w (y, snd pd)) with true; [vm_compute; reflexivity|]. symmetry. unfold is_border. cbn [fst snd]. rewrite !orb_true_iff, !Z.eqb_eq. lia.
+  - apply Z.ltb_lt. cbn [snd]. lia.
+  - apply Z.ltb_lt. cbn [snd]. lia.
+  - apply Z.ltb_lt. unfold pex. cbn [snd]. lia.
+Qed.
